@@ -256,6 +256,76 @@ func genManaged() {
 	fmt.Fprintf(&sb, "/-- how (*ModuleError).Report hands the error to errorReportingChannel (modules/error.go):\n    \"select-default\" = `select { case ch <- me: default: }` (never blocks), \"send\" = `ch <- me` (blocks while the channel is full). -/\ndef reportSend : String := %q\n\n", send)
 	fmt.Fprintf(&sb, "/-- the statements of Report in source order. -/\ndef reportSeq : List String := %s\n\n", leanStrList(seq))
 
+	// ---- api/router.go: the handler-level recover of mainHandler.handle
+	fsetR, fR := parseFile("api/router.go")
+	hd := findFunc(fR, "handle", "mainHandler")
+	if hd == nil {
+		die("managed: (*mainHandler).handle not found")
+	}
+	var recBody []ast.Stmt
+	nRec := 0
+	ast.Inspect(hd.Body, func(n ast.Node) bool {
+		is, ok := n.(*ast.IfStmt)
+		if !ok || is.Init == nil {
+			return true
+		}
+		if stmtString(fsetR, is.Init) == "panicValue := recover()" {
+			nRec++
+			if exprString(fsetR, is.Cond) != "panicValue != nil" || is.Else != nil {
+				die("managed: handle: unrecognised recover test")
+			}
+			recBody = is.Body.List
+		}
+		return true
+	})
+	if nRec != 1 {
+		die("managed: handle: expected exactly one `if panicValue := recover(); panicValue != nil`, found %d", nRec)
+	}
+	onlyRespond := func(list []ast.Stmt) bool {
+		if len(list) != 1 {
+			return false
+		}
+		es, ok := list[0].(*ast.ExprStmt)
+		if !ok {
+			return false
+		}
+		ce, ok := es.X.(*ast.CallExpr)
+		if !ok || exprString(fsetR, ce.Fun) != "http.Error" || len(ce.Args) != 3 {
+			return false
+		}
+		return exprString(fsetR, ce.Args[0]) == "lrw" && exprString(fsetR, ce.Args[2]) == "http.StatusInternalServerError"
+	}
+	var apiSeq []string
+	for _, st := range recBody {
+		if isHookR := func() bool {
+			es, ok := st.(*ast.ExprStmt)
+			if !ok {
+				return false
+			}
+			ce, ok := es.X.(*ast.CallExpr)
+			return ok && strings.HasPrefix(exprString(fsetR, ce.Fun), "verif")
+		}(); isHookR {
+			continue
+		}
+		switch s := stmtString(fsetR, st); {
+		case s == `me := module.NewPanicError("api request", "custom", panicValue)`:
+			apiSeq = append(apiSeq, "new")
+		case s == "me.Report()":
+			apiSeq = append(apiSeq, "report")
+		default:
+			is, ok := st.(*ast.IfStmt)
+			if !ok || is.Init != nil || exprString(fsetR, is.Cond) != "devMode()" {
+				die("managed: handle: unrecognised statement in the recover block: %s", s)
+			}
+			el, ok := is.Else.(*ast.BlockStmt)
+			if !ok || !onlyRespond(is.Body.List) || !onlyRespond(el.List) {
+				die("managed: handle: the devMode branches of the recover block are not `http.Error(lrw, …, 500)` each")
+			}
+			apiSeq = append(apiSeq, "if devMode { respond 500 detail } else { respond 500 plain }")
+		}
+	}
+	fmt.Fprintf(&sb, "/-- the handler-level recover block of (*mainHandler).handle (api/router.go), statements in source order. -/\ndef apiRecoverSeq : List String := %s\n\n", leanStrList(apiSeq))
+
 	sb.WriteString("end PB.Gen.Managed\n")
 	write("Managed.lean", sb.String())
 }
